@@ -102,11 +102,19 @@ func errText(err error) string {
 	if err == nil {
 		return "<nil>"
 	}
+	// an error is a value of its own: whoever holds it may render it, from
+	// several goroutines at once, and always gets the same text
+	other := make(chan string, 1)
+	go func() { other <- err.Error() }()
+	mine := err.Error()
+	if theirs := <-other; theirs != mine {
+		return "ERROR-TEXT-DIFFERS-BETWEEN-READERS:" + mine + " | " + theirs
+	}
 	var se *wkt.SyntaxError
 	if errors.As(err, &se) {
-		return "SyntaxError:" + se.Error()
+		return "SyntaxError:" + mine
 	}
-	return scrub(fmt.Sprintf("%T:%s", err, err.Error()))
+	return scrub(fmt.Sprintf("%T:%s", err, mine))
 }
 
 func fl(v float64) string { return fmt.Sprintf("%016x", math.Float64bits(v)) }
